@@ -134,6 +134,7 @@ def run_property(pid: str, tier: str, seed: int, write_lock=False, verbose=False
     solver_seconds = 0.0
     samples = []
     n_inst = 0
+    slowest = []
     for r in results:
         if r.unsupported:
             undecided.append({"function": r.name, "reason": "unsupported: " + r.unsupported})
@@ -141,6 +142,7 @@ def run_property(pid: str, tier: str, seed: int, write_lock=False, verbose=False
             n_inst += 1
             res = ob.result
             solver_seconds += res.get("seconds", 0.0)
+            slowest.append((round(res.get("seconds", 0.0) * (res.get("grouped") or 1), 2), ob.coarse_id, res.get("solver")))
             cid = ob.coarse_id
             ent = coarse.setdefault(cid, {"instances": 0, "unsat": 0, "sat": 0, "unknown": 0, "solvers": set()})
             ent["instances"] += 1
@@ -329,6 +331,7 @@ def run_property(pid: str, tier: str, seed: int, write_lock=False, verbose=False
             "by_backend": by_backend,
             "solver_seconds": round(solver_seconds, 2),
             "solve_wall_s": round(solve_wall, 2),
+            "slowest_queries": [list(x) for x in sorted(set(slowest), reverse=True)[:6]],
             "ground_rows": len(ground), "exhaustive": bool(ground),
             "undecided": undecided[:50], "dead_paths": dead, "vacuity_failures": vacuous,
             "lock_missing": missing, "spurious_models": spurious,
